@@ -45,7 +45,7 @@ type p3State struct {
 	selfSent bool
 }
 
-func (s *p3State) Key() string   { return fmt.Sprintf("%v|%v", s.reg, s.selfSent) }
+func (s *p3State) Key() string  { return fmt.Sprintf("%v|%v", s.reg, s.selfSent) }
 func (s *p3State) Copy() PState { n := *s; return &n }
 
 func recvFieldName(info *types.Info, call *ast.CallExpr) string {
@@ -417,7 +417,7 @@ func ruleP5(r *Run) {
 
 type p1aState struct{ took, timedOut, errSet bool }
 
-func (s *p1aState) Key() string   { return fmt.Sprintf("%v|%v|%v", s.took, s.timedOut, s.errSet) }
+func (s *p1aState) Key() string  { return fmt.Sprintf("%v|%v|%v", s.took, s.timedOut, s.errSet) }
 func (s *p1aState) Copy() PState { n := *s; return &n }
 
 type p1State struct {
@@ -425,7 +425,7 @@ type p1State struct {
 	deferRel bool
 }
 
-func (s *p1State) Key() string   { return fmt.Sprintf("%d|%v", s.acquired, s.deferRel) }
+func (s *p1State) Key() string  { return fmt.Sprintf("%d|%v", s.acquired, s.deferRel) }
 func (s *p1State) Copy() PState { n := *s; return &n }
 
 func ruleP1(r *Run) {
@@ -769,29 +769,42 @@ func ruleP4(r *Run) {
 	}
 	info := pkg.TypesInfo
 	push, deferredRemove, deferredCancel := false, false, false
-	ast.Inspect(fd.Body, func(m ast.Node) bool {
-		switch x := m.(type) {
-		case *ast.CallExpr:
-			if methodName(x) == "PushBack" && recvFieldName(info, x) == "cancelFuncs" {
-				push = true
-			}
-		case *ast.DeferStmt:
-			if fl, ok := ast.Unparen(x.Call.Fun).(*ast.FuncLit); ok {
-				ast.Inspect(fl.Body, func(k ast.Node) bool {
-					if c, ok := k.(*ast.CallExpr); ok {
-						if methodName(c) == "Remove" && recvFieldName(info, c) == "cancelFuncs" {
-							deferredRemove = true
-						}
-						if id, ok := ast.Unparen(c.Fun).(*ast.Ident); ok {
-							if v, ok := info.Uses[id].(*types.Var); ok && isNamed(v.Type(), "context", "CancelFunc") {
-								deferredCancel = true
-							}
-						}
-					}
-					return true
-				})
-			}
+	// looked for in Client.Transport and in the repository helpers it calls (the lock/unlock
+	// pairs are often moved into small register/unregister helpers)
+	p.deepInspect(info, fd.Body, 2, func(ci *types.Info, m ast.Node) bool {
+		if x, ok := m.(*ast.CallExpr); ok && methodName(x) == "PushBack" && recvFieldName(ci, x) == "cancelFuncs" {
+			push = true
 		}
+		return true
+	})
+	ast.Inspect(fd.Body, func(m ast.Node) bool {
+		x, ok := m.(*ast.DeferStmt)
+		if !ok {
+			return true
+		}
+		var body ast.Node
+		dinfo := info
+		if fl, ok := ast.Unparen(x.Call.Fun).(*ast.FuncLit); ok {
+			body = fl.Body
+		} else if d, cpkg := p.calleeDecl(info, x.Call); d != nil {
+			body, dinfo = d.Body, cpkg.TypesInfo
+		}
+		if body == nil {
+			return true
+		}
+		p.deepInspect(dinfo, body, 2, func(ci *types.Info, k ast.Node) bool {
+			if c, ok := k.(*ast.CallExpr); ok {
+				if methodName(c) == "Remove" && recvFieldName(ci, c) == "cancelFuncs" {
+					deferredRemove = true
+				}
+				if id, ok := ast.Unparen(c.Fun).(*ast.Ident); ok {
+					if v, ok := ci.Uses[id].(*types.Var); ok && isNamed(v.Type(), "context", "CancelFunc") {
+						deferredCancel = true
+					}
+				}
+			}
+			return true
+		})
 		return true
 	})
 	r.Check(push && deferredRemove && deferredCancel, "cancel function registered for Abort and withdrawn by defer in Client.Transport", fd.Pos(), "PushBack + deferred Remove and cancel", "Client.Transport does not register the call's cancel function and remove it (and cancel) by defer: Abort cannot reach the call, or entries accumulate")
@@ -802,10 +815,10 @@ func ruleP4(r *Run) {
 		return
 	}
 	calls := false
-	ast.Inspect(afd.Body, func(m ast.Node) bool {
+	p.deepInspect(info, afd.Body, 2, func(ci *types.Info, m ast.Node) bool {
 		if c, ok := m.(*ast.CallExpr); ok {
 			if ta, ok := ast.Unparen(c.Fun).(*ast.TypeAssertExpr); ok {
-				if t := info.TypeOf(ta.Type); t != nil && isNamed(t, "context", "CancelFunc") {
+				if t := ci.TypeOf(ta.Type); t != nil && isNamed(t, "context", "CancelFunc") {
 					calls = true
 				}
 			}
@@ -878,7 +891,7 @@ func ruleP3w(r *Run) {
 
 type p3cState struct{ miss bool }
 
-func (s *p3cState) Key() string   { return fmt.Sprintf("%v", s.miss) }
+func (s *p3cState) Key() string  { return fmt.Sprintf("%v", s.miss) }
 func (s *p3cState) Copy() PState { n := *s; return &n }
 
 func ruleP3c(r *Run) {
